@@ -1259,6 +1259,10 @@ determine_type() const {
       if (t1 != nullptr) {
         // Easy case, function with only a single overload.
         CPPFunctionType *ftype = t1->as_function_type();
+        if (ftype == nullptr) {
+          // Or a lambda that is called on the spot.
+          ftype = t1->as_closure_type();
+        }
         if (ftype != nullptr) {
           return ftype->_return_type;
         }
